@@ -38,7 +38,8 @@ ASSUMPTIONS = [
 ]
 MIN_NONTRIVIAL = {"quick": 1500, "thorough": 30000}
 REQUIRED_COUNTERS = {"roundtrip.calls": 5000, "negative.calls": 1000, "handler.calls": 200,
-                     "errors.calls": 50, "partial_end.rollover": 100}
+                     "errors.calls": 50, "partial_end.rollover": 100,
+                     "history.time_coverage_reassigned": 20}
 SHARD_TIMEOUT = {"quick": 600, "thorough": 7200}
 
 
@@ -311,6 +312,30 @@ def roundtrip(rec, fs, tj, s, e, fill):
     return name
 
 
+def coverage_history(rec, fs, tj, name, s, new_cov):
+    """Object history: the file's information was asked for, then the caller assigns another
+    time_coverage to the live object and asks again - 'start + time_coverage' means the coverage the
+    object has now."""
+    case = {"kind": "cov-history", "tj": dict(tj), "name": name, "s": s.isoformat(),
+            "new_cov": new_cov}
+    rec.ev()
+    rec.count("history.time_coverage_reassigned")
+    try:
+        fs.get_info(name)
+        fs.time_coverage = None if new_cov is None else D(seconds=new_cov)
+        info = fs.get_info(name)
+    except Exception as exc:
+        rec.violation("name-exception", case, {"where": "time_coverage re-assigned",
+                                               "exception": repr(exc)})
+        return
+    want = s if new_cov is None else s + D(seconds=new_cov)
+    if info.times[0] != s or info.times[1] != want:
+        rec.violation("name-end-time", case, {"why": "times after time_coverage was re-assigned",
+                                              "name": name, "got": [str(t) for t in info.times],
+                                              "want": [str(s), str(want)],
+                                              "coverage_before": tj["cov_s"]})
+
+
 def negative(rec, rng, fs, tj, name, s, e, fill):
     """Names that do not match the template must raise ValueError."""
     root_len = len("/vt-nonexistent-root/base/")
@@ -512,6 +537,11 @@ def run_shard(spec, rec):
             done += 1
             if name is not None and k % 3 == 0:
                 negative(rec, rng, fs, tj, name, s, e, fill)
+            if name is not None and k in (4, 8) and T.expected_end(tj["template"], s, e) == "none":
+                new_cov = None if (k == 8 and tj["cov_s"] is not None) else \
+                    rng.choice([1, 59, 3600, 6 * 3600 + 1, 86400 * 3])
+                coverage_history(rec, fs, tj, name, s, new_cov)
+                tj["cov_s"] = new_cov
             if k == 0:
                 handler_case(rec, rng, tj, s, e, fill)
             if k == 1 and ti % 5 == 0:
@@ -532,6 +562,9 @@ def replay(case, rec):
             rec.violation("name-not-rejected", case, {"times": [str(t) for t in info.times]})
         except ValueError:
             pass
+    elif kind == "cov-history":
+        coverage_history(rec, make_fs(tj), tj, case["name"], dt.datetime.fromisoformat(case["s"]),
+                         case["new_cov"])
     elif kind == "handler":
         handler_case(rec, rng, tj, dt.datetime.fromisoformat(case["s"]),
                      dt.datetime.fromisoformat(case["e"]), case["fill"])
